@@ -115,6 +115,23 @@ def design(topo, eq, source=None, destination=None, sim=None, warm=None, **kw):
     return network, equipment, req, ref
 
 
+def settings_vs_document(equipment, eq):
+    """Span and SI settings of the loaded library (after whatever was done with it) that differ from the equipment DOCUMENT:
+    oracles that read them from the loaded object are only as good as this comparison.  Returns a list of texts."""
+    out = []
+    for section, obj in (('Span', equipment['Span']['default']), ('SI', equipment['SI']['default'])):
+        doc = eq[section][0]
+        for k, val in doc.items():
+            if k == 'type_variety' or not hasattr(obj, k):
+                continue
+            got = getattr(obj, k)
+            same = (list(got) == list(val)) if isinstance(val, (list, tuple)) else \
+                (got == val or (isinstance(val, (int, float)) and isinstance(got, (int, float)) and abs(got - val) <= 1e-12 * max(1, abs(val))))
+            if not same:
+                out.append(f'{section}.{k}: loaded library says {got!r}, document {val!r}')
+    return out
+
+
 def node(network, uid):
     return next(n for n in network.nodes() if n.uid == uid)
 
